@@ -3,6 +3,8 @@
    (list / slice x int / string elements) with every register observed after every step:
      [combos |-> <<[name, mon, slice]>>,
       steps  |-> <<[op, i, j, x, xs, obs |-> <<per machine: [regs |-> <<obs_1, obs_2, obs_3>>, caps, share, panic]>>]>>]
+   Long scripts (New of 0 .. 1000 distinct elements, Cons chains, Tail walks across size thresholds) observe only
+   some steps (obs = <<>> otherwise) and are not followed by the I layer (follow = FALSE).
    TRACE-P  the P registers are advanced with PApply and every observation is judged by P_Observation; failures
             are printed ({"t":"PVIOL", step, fails |-> {<<machine, register, predicate>>}}) and validation goes on.
    TRACE-I  the slice model is advanced with SApply (the spare capacity append produced is inferred from the logged
@@ -33,8 +35,10 @@ Step == /\ k <= Len(Steps)
                o == [op |-> s.op, i |-> s.i, j |-> s.j, x |-> s.x, xs |-> s.xs]
                q == PApply(p, o) IN
            /\ p' = q
-           /\ fails' = (IF Enabled(p, o) THEN Judged(q, s) ELSE {<<0, 0, "HARNESS">>})
-           /\ IF drift > 0 \/ s.obs[ICombo].panic # "" THEN UNCHANGED <<S, drift>>
+           /\ fails' = (IF ~Enabled(p, o) THEN {<<0, 0, "HARNESS">>}
+                        ELSE IF s.obs = <<>> THEN {}             \* a quiet step of a long script: applied, not observed
+                        ELSE Judged(q, s))
+           /\ IF drift > 0 \/ ~Traces[ti].follow \/ s.obs = <<>> \/ s.obs[ICombo].panic # "" THEN UNCHANGED <<S, drift>>
               ELSE LET lg == s.obs[ICombo]
                        sp == lg.caps[o.i] - Len(q[o.i])
                        S2 == SApply(S, o, IF sp > 0 THEN sp ELSE 0) IN
